@@ -98,6 +98,18 @@ func runCheck(repo, verifDir, prop, tier, evidence string, timeout int, verbose 
 			run.results = append(run.results, p.VerifyLemma(l))
 		}
 	}
+	var immRes *FuncResult
+	for _, d := range p.CS.Immutables {
+		if hasProp(d.Props, prop) {
+			if immRes == nil {
+				immRes = &FuncResult{Name: "immutable-fields", Pkg: "", Mode: "ssa-scan", Props: []string{prop}}
+			}
+			immRes.Obls = append(immRes.Obls, p.CheckImmutable(d))
+		}
+	}
+	if immRes != nil {
+		run.results = append(run.results, immRes)
+	}
 	if prop == "C18" {
 		// the released v0.0.17 codec functions against the SAME contract text as the working tree's
 		olds, fault := verifyOldCodec(repo, verifDir)
@@ -209,6 +221,9 @@ func runCheck(repo, verifDir, prop, tier, evidence string, timeout int, verbose 
 	var knownHit []string
 	seenKnown := map[string]bool{}
 	replayDir := filepath.Join(verifDir, "replay", prop)
+	if replayDirOverride != "" {
+		replayDir = filepath.Join(replayDirOverride, prop)
+	}
 	os.RemoveAll(replayDir)
 	reported := map[string]bool{}
 	for _, f := range fails {
